@@ -50,6 +50,10 @@ def rand_dep(rng, ids_):
         d["script"] = [{"src": rng.choice("zyxwv") + ids_.next("u") + ".js", "defer": ""} for _ in range(rng.randint(1, 3))]
         if rng.random() < 0.5:
             d["stylesheet"] = {"href": "s.css"}
+    if rng.random() < 0.4:
+        # file names that percent-encoding changes, a rel that as_dict overrides; for every kind of source
+        d["script"] = (d.get("script") if isinstance(d.get("script"), list) else []) + [{"src": rng.choice(["my widget.js", "100%.js", "ü.js"])}]
+        d["stylesheet"] = [{"href": "a b.css", "rel": rng.choice(["preload", "alternate stylesheet"])}]
     if rng.random() < 0.5:
         d["meta"] = {"name": "viewport", "content": ids_.next("m")}
     if rng.random() < 0.5:
